@@ -20,44 +20,66 @@ CK = 'pmutt.io.chemkin'
 Z = '\x00'
 
 
+def cat_site(I, repo, kw, name):
+    """CatSite(name=, site_density=, density=, bulk_specie=) through its constructor"""
+    o = I.construct(repo.cls('pmutt.chemkin.CatSite'), [], dict(kw), name=name)
+    if isinstance(o, Raised):
+        raise Unsupported('CatSite(...) raised %s for the model site %s' % (o.exc, name))
+    o._interp = I
+    return o
+
+
+def site_attr(site, attr):
+    """a documented attribute of a catalyst site as a user reads it"""
+    return get_public(site._interp, site, attr)
+
+
 class World:
-    def __init__(self, repo, two_sites=False, names=None):
+    def __init__(self, repo, two_sites=False, names=None, copies=True):
         """names: {key: concrete text} - species, sites and elements spelled as a user spells them (H2, CH3(S), ...)
-        instead of symbolic texts"""
+        instead of symbolic texts; copies: one adsorbate of the first site carries an equal copy of the CatSite object
+        instead of the object the other species share"""
         self.repo = repo
         self.names = names or {}
         self.I = I = Interp(repo)
         D = I.D
         self.sites = []
+        self.site_copies = []
         for si in range(2 if two_sites else 1):
             nm = self.text('site%d' % si, 2)
             bulk = self.text('bulk%d' % si, 5)
-            self.sites.append(Obj('site%d' % si, attrs={'name': nm, 'site_density': D.sym('sden%d' % si),
-                                                        'density': D.sym('rho%d' % si), 'bulk_specie': bulk}))
+            kw = {'name': nm, 'site_density': D.sym('sden%d' % si), 'density': D.sym('rho%d' % si),
+                  'bulk_specie': bulk}
+            self.sites.append(cat_site(I, repo, kw, 'site%d' % si))
+            # an equal copy of the site, as every species carries its own after a JSON round trip: the same site
+            self.site_copies.append(cat_site(I, repo, kw, 'site%d_copy' % si) if copies else self.sites[-1])
         self.species = {}
         self.elements = [self.text('el%d' % k, w, 'alpha') for k, w in enumerate((1, 1, 2))]
 
-        def sp(key, phase, site, width, els, name=None):
-            o = opaque_species(I, key, phase, site)
-            o.attrs['name'] = name or self.text(key, width)
-            o.attrs['elements'] = DictV({self.elements[e]: D.sym('%s_n%d' % (key, e)) for e in els})
-            o.attrs['n_sites'] = D.sym('%s_sites' % key)
-            I.int_syms.add('%s_sites' % key)        # a site occupancy is a whole number of sites
-            I.num_widths[repr(o.attrs['n_sites'])] = 1
-            self.species[key] = o
-            return o
+        sp = self.add_species
         sp('g1', 'G', None, 2, (0,))
         sp('g2', 'G', None, 3, (0, 1))
         sp('g3', 'g', None, 4, (1,))            # lower-case phase label
         sp('a1', 'S', self.sites[0], 5, (0, 2))
-        sp('a2', 'S', self.sites[0], 6, (1, 2))
+        sp('a2', 'S', self.site_copies[0], 6, (1, 2))       # its own, equal copy of the site object
         sp('vac', 's', self.sites[0], 4, (2,))      # lower-case phase label on a surface species
-        sp('blk', 'S', self.sites[0], 5, (2,), name=self.sites[0].attrs['bulk_specie'])
+        sp('blk', 'S', self.sites[0], 5, (2,), name=site_attr(self.sites[0], 'bulk_specie'))
         sp('ts', 'S', self.sites[0], 3, (0, 1, 2))
         if two_sites:
             sp('b1', 'S', self.sites[1], 3, (0,))
             sp('c1', 'S', self.sites[0], 4, (1,))
         self.reactions = []
+
+    def add_species(self, key, phase, site, width, els, name=None):
+        I = self.I
+        o = opaque_species(I, key, phase, site)
+        o.attrs['name'] = name or self.text(key, width)
+        o.attrs['elements'] = DictV({self.elements[e]: I.D.sym('%s_n%d' % (key, e)) for e in els})
+        o.attrs['n_sites'] = I.D.sym('%s_sites' % key)
+        I.int_syms.add('%s_sites' % key)        # a site occupancy is a whole number of sites
+        I.num_widths[repr(o.attrs['n_sites'])] = 1
+        self.species[key] = o
+        return o
 
     def text(self, key, width, cls='text'):
         if key in self.names:
@@ -97,9 +119,10 @@ class World:
         name, reactants, products, ts, adsorption = rxn._sides
         return self.reaction(name, reactants, products, ts, adsorption, keep=False)
 
-    def reaction_set(self):
+    def reaction_set(self, reactions=None):
         """Reactions(reactions=[...]) through its constructor"""
-        o = self.I.construct(self.repo.cls('pmutt.reaction.Reactions'), [], {'reactions': ListV(list(self.reactions))},
+        o = self.I.construct(self.repo.cls('pmutt.reaction.Reactions'), [],
+                             {'reactions': ListV(list(self.reactions if reactions is None else reactions))},
                              name='rset')
         if isinstance(o, Raised):
             raise Unsupported('Reactions(reactions=[...]) raised %s' % o.exc)
@@ -114,7 +137,8 @@ def sections(text, I):
     clean = []
     for ln in lines:
         body = ln.strip('rstrip', '\n')
-        clean.append(body)
+        if not is_comment(body):
+            clean.append(body)
         lit = body.literal() if body.is_literal() else None
         first = body.segs[0].text.split()[0] if body.segs and body.segs[0].kind == 'lit' and \
             body.segs[0].text.split() else None
@@ -126,14 +150,26 @@ def sections(text, I):
             out.setdefault(cur, [])
             continue
         if cur is not None:
-            if lit is not None and lit.startswith('!'):
+            if is_comment(body):
                 continue
             out[cur].append(body)
     return out, clean
 
 
+class Printed:
+    """a number that stands in the line as literal text"""
+
+    def __init__(self, value):
+        self.value = value
+
+
 def fields_of(line):
     return [s for s in line.segs if s.kind == 'field']
+
+
+def is_comment(line):
+    """a line Chemkin does not read (time stamp, explanations): whatever it carries is no entry of the file"""
+    return bool(line.segs) and line.segs[0].kind == 'lit' and line.segs[0].text.lstrip().startswith('!')
 
 
 def check_reaction_lines(run, w, lines, expected_rxns, label, writer, m, kw, act_method, ads_method, act_unit,
@@ -169,13 +205,20 @@ def check_reaction_lines(run, w, lines, expected_rxns, label, writer, m, kw, act
                 'get_E_act', 'get_EoRT_act'):
             # the model does not define this activation quantity without a transition state: written as 0
             undefined = True
+        # a number the writer formats from a Python constant (the 0. of an undefined quantity) is text of the line
+        tail = ''.join(s_.text for s_ in rec['line'].segs[-1:] if s_.kind == 'lit').strip().split()[-1:]
+        try:
+            tail_value = Fr(tail[0]) if tail else None
+        except ValueError:
+            tail_value = None
         if undefined:
-            tail = ''.join(s_.text for s_ in rec['line'].segs[-1:] if s_.kind == 'lit')
-            okz = len(nums) == 2 and tail.strip().split()[-1:] and float(tail.strip().split()[-1]) == 0.0
+            okz = len(nums) == 2 and tail_value == 0
             run.check(bool(okz), 'DATAFLOW.Ea', 'chemkin.' + writer, label + ' activation energy',
                       '[%s] %s has no transition state: the undefined activation energy must be written as 0 (line %s)'
                       % (label, rxn.name, show(rec['line'], 120)), m, fn)
             nums = nums + [None]
+        elif len(nums) == 2 and tail_value is not None:
+            nums = nums + [Printed(C(tail_value))]
         if len(nums) != 3:
             run.fail('DATAFLOW.numbers', 'chemkin.' + writer, label + ' numeric fields',
                      '[%s] reaction line of %s has %d numeric fields, expected A, beta, Ea' % (label, rxn.name, len(nums)),
@@ -208,8 +251,8 @@ def check_reaction_lines(run, w, lines, expected_rxns, label, writer, m, kw, act
             for sp, nu in zip(side_of(rxn, 'reactants').items, side_of(rxn, 'reactants_stoich').items):
                 site = sp.attrs['cat_site']
                 if sp.attrs['phase'].upper() == 'S' and site is not None and \
-                        sp.attrs['name'] != site.attrs['bulk_specie']:
-                    dens += [site.attrs['site_density']] * int(nu.const_value())
+                        sp.attrs['name'] != site_attr(site, 'bulk_specie'):
+                    dens += [site_attr(site, 'site_density')] * int(nu.const_value())
             n_ref = len(dens)
             kb_h = I.D.sym('kb') / I.D.sym('h')
             if side_of(rxn, 'transition_state') is None or not inc:
@@ -252,20 +295,23 @@ def check_site_blocks(run, w, clean, label, tag, m, fn):
                   ln.segs[0].text.startswith('SITE/')]
     run.check(len(site_lines) == len(w.sites), 'DATAFLOW.once', 'chemkin.write_surf', tag + ' sites',
               '[%s] %d SITE lines for %d catalyst sites' % (label, len(site_lines), len(w.sites)), m, fn)
-    for ln, site in zip(site_lines, w.sites):
-        fs = fields_of(ln)
-        ok = len(fs) == 2 and fs[0].value == site.attrs['name'] and isinstance(fs[1].value, Rat) and \
-            fs[1].value.eq(site.attrs['site_density'])
+    for site in w.sites:
+        # the SITE line of this site, wherever it stands among the blocks
+        mine = [ln for ln in site_lines if fields_of(ln) and fields_of(ln)[0].value == site_attr(site, 'name')]
+        fs = fields_of(mine[0]) if mine else []
+        ok = len(mine) == 1 and len(fs) == 2 and isinstance(fs[1].value, Rat) and \
+            fs[1].value.eq(site_attr(site, 'site_density'))
         run.check(ok, 'DATAFLOW.site', 'chemkin.write_surf', tag + ' site density',
-                  '[%s] SITE line %s does not carry the site name and its site density' % (label, show(ln, 100)),
-                  m, fn)
+                  '[%s] %s does not carry the site name and its site density once'
+                  % (label, 'SITE line %s' % show(mine[0], 100) if mine else 'no SITE line of site %s (%s)'
+                     % (site.name, [show(ln, 60) for ln in site_lines])), m, fn)
     # adsorbates: every non-gas, non-bulk species of the reactions once, under its site, with its occupancy
     used = {}
     for r in w.reactions:
         for sp in side_of(r, 'reactants').items + side_of(r, 'products').items:
             used[sp.name] = sp
     want_ads = [sp for sp in used.values() if sp.attrs['phase'].upper() != 'G'
-                and sp.attrs['name'] != sp.attrs['cat_site'].attrs['bulk_specie']]
+                and sp.attrs['name'] != site_attr(sp.attrs['cat_site'], 'bulk_specie')]
     ads_lines = [ln for ln in clean if len(fields_of(ln)) == 2 and ln.segs[-1].kind == 'lit'
                  and ln.segs[-1].text == '/' and fields_of(ln)[1].cls == 'num'
                  and not (ln.segs[0].kind == 'lit' and ln.segs[0].text.startswith(('SITE', 'BULK')))]
@@ -286,7 +332,7 @@ def check_site_blocks(run, w, clean, label, tag, m, fn):
         elif id(ln) in is_ads:
             spm = [sp for sp in want_ads if sp.attrs['name'] == fields_of(ln)[0].value]
             if spm:
-                own = spm[0].attrs['cat_site'].attrs['name']
+                own = site_attr(spm[0].attrs['cat_site'], 'name')
                 run.check(cur_site == own, 'DATAFLOW.section', 'chemkin.write_surf', tag + ' adsorbate under its site',
                           '[%s] adsorbate %s of site %s stands under %s' % (
                               label, spm[0].name, str(own).strip(Z),
@@ -300,9 +346,11 @@ def check_site_blocks(run, w, clean, label, tag, m, fn):
                       '[%s] occupancy written for %s is %s' % (label, spm[0].name, show(f1.value)), m, fn)
     bulk_lines = [ln for ln in clean if ln.segs and ln.segs[0].kind == 'lit' and
                   ln.segs[0].text.startswith('BULK')]
-    okb = len(bulk_lines) == len(w.sites) and all(
-        len(fields_of(ln)) == 2 and fields_of(ln)[0].value == s_.attrs['bulk_specie'] and
-        fields_of(ln)[1].value.eq(s_.attrs['density']) for ln, s_ in zip(bulk_lines, w.sites))
+    okb = len(bulk_lines) == len(w.sites)
+    for s_ in w.sites:
+        mine = [ln for ln in bulk_lines if fields_of(ln) and fields_of(ln)[0].value == site_attr(s_, 'bulk_specie')]
+        okb = okb and len(mine) == 1 and len(fields_of(mine[0])) == 2 and \
+            isinstance(fields_of(mine[0])[1].value, Rat) and fields_of(mine[0])[1].value.eq(site_attr(s_, 'density'))
     run.check(okb, 'DATAFLOW.site', 'chemkin.write_surf', tag + ' bulk', '[%s] BULK lines do not carry each '
               'site\'s bulk species and density once' % label, m, fn)
 
@@ -324,6 +372,12 @@ def add_reactions(w, two_sites=False):
         # an adsorbate of the first site that is first mentioned after one of the second site: the species come in the
         # order site0 ... site1 site0, each site still has one block
         w.reaction('rc', [('c1', 1), ('vac', 1)], [('a1', 1)])
+
+
+def reordered(reactions):
+    """the same reactions as a user of the examples lists them: adsorption steps first; the others back to front"""
+    ads = [r for r in reactions if side_of(r, 'is_adsorption')]
+    return ads + [r for r in reversed(list(reactions)) if not side_of(r, 'is_adsorption')]
 
 
 def mechanism(run, repo, two_sites):
@@ -392,6 +446,33 @@ def mechanism(run, repo, two_sites):
                                                            'ads_act_method': ads, 'sden_operation': op}, surf_rx,
                               label, pol, species=species_list if pol.small and not pol.negative else None)
             check_site_blocks(run, w, clean, label, tag, m, fn)
+    # ---------------- the reaction list in another order ----------------
+    # the order of the list is the user's: what the loop over the reactions hands from one reaction to the next (keyword
+    # dictionaries, paddings) must not decide a number.  Adsorption steps first (as the pMuTT examples list them), the
+    # others in the opposite order: the adsorption step is the first line of surf.inp, the gas step with a transition
+    # state stands before the one without in gas.inp
+    rev = reordered(w.reactions)
+    rset_rev = w.reaction_set(rev)
+    for writer, wkw, rx, ckw, pairs in (
+            ('write_gas', {'nasa_species': species_list, 'reactions': ListV(rev)},
+             [r for r in rev if all(sp.attrs['phase'].upper() == 'G' for sp in side_of(r, 'reactants').items)], {},
+             (('get_G_act', None), ('get_E_act', None))),
+            ('write_surf', {'reactions': rset_rev, 'sden_operation': 'min'},
+             [r for r in rev if not all(sp.attrs['phase'].upper() == 'G' for sp in side_of(r, 'reactants').items)],
+             {'sden_operation': 'min'}, (('get_G_act', 'get_G_act'), ('get_E_act', 'get_H_act')))):
+        fn = m.functions[writer]
+        for act, ads in pairs if full else pairs[:1]:
+            out = I.call_function(m, fn, [], dict(wkw, T=T, P=P, act_method_name=act,
+                                                  **({'ads_act_method': ads} if ads else {})))
+            label = '%s %s act=%s, adsorption steps first' % (tag, writer[6:] + '.inp', act)
+            if isinstance(out, Raised):
+                run.fail('DATAFLOW.write', 'chemkin.' + writer, label, 'raises %s' % out.exc, m, fn)
+                continue
+            sec, clean = sections(out, I)
+            check_reaction_lines(run, w, sec.get('REACTIONS', []), rx, label, writer, m, dict(ckw, T=T, P=P), act, ads,
+                                 'kcal/mol')
+            if writer == 'write_surf' and act == 'get_G_act':
+                check_site_blocks(run, w, clean, label, tag + ' reordered', m, fn)
     # ---------------- the same reaction objects written again for other run conditions ----------------
     # (a pressure series, then another temperature): every number is the model's value at the conditions of *this*
     # call.  The model value is asked of a twin of each reaction - same species, built now, never called before - and
@@ -473,14 +554,30 @@ def mechanism(run, repo, two_sites):
         from ..absre import NumPolicy
         if two_sites:
             continue            # the reader does not look at the site blocks: once is enough
-        for ro in (dict(opts, **extra),
-                   {'reaction_delimiter': '<=>', 'column_delimiter': '\t', 'float_format': ' .6E'}
-                   if writer == 'write_surf' else {'species_delimiter': ' + ', 'reaction_delimiter': ' = '}):
+        above, below, signed = NumPolicy(), NumPolicy(small=True), NumPolicy(negative=signed_quantity)
+        # the kinds of float format: scientific (above), fixed point (123450.0000, 0.0000), general (123450 without
+        # point or exponent, 1.2345e-05 with a lower-case e), an explicit sign
+        if run.tier == 'thorough':
+            kinds = [(ff, pol) for ff in ('.4f', '.6g', '+.3e') for pol in (above, below, signed)]
+        elif writer == 'write_gas':
+            kinds = [('.4f', above), ('.6g', below)]
+        else:
+            kinds = [('.6g', above), ('.4f', signed)]
+        for ro, pol in [(dict(opts, **extra), above),
+                        ({'reaction_delimiter': '<=>', 'column_delimiter': '\t', 'float_format': ' .6E'}
+                         if writer == 'write_surf' else {'species_delimiter': ' + ', 'reaction_delimiter': ' = '}, above)
+                        ] + [({'float_format': ff, 'reaction_delimiter': '='}, pol) for ff, pol in kinds]:
             read_back(run, repo, w, writer, dict(kw, **ro), rx,
                       '%s %s %s' % (tag, writer, ' '.join('%s=%r' % kv for kv in sorted(ro.items())
                                                         if kv[0] in ('species_delimiter', 'reaction_delimiter',
                                                                      'column_delimiter', 'float_format'))),
-                      NumPolicy(), delims=(ro.get('species_delimiter', '+'), ro['reaction_delimiter']))
+                      pol, delims=(ro.get('species_delimiter', '+'), ro['reaction_delimiter']))
+    # gas.inp and surf.inp written to a file are, section by section (elements, species, sites, reactions), the text
+    # returned without a file name (the reader sees their reaction lines only)
+    file_is_text(run, I, m, 'write_gas', {'nasa_species': species_list, 'reactions': ListV(list(w.reactions)), 'T': T,
+                                          'P': P, 'act_method_name': 'get_G_act'}, tag + ' gas.inp')
+    file_is_text(run, I, m, 'write_surf', {'reactions': rset, 'T': T, 'P': P, 'act_method_name': 'get_G_act',
+                                           'ads_act_method': 'get_H_act', 'sden_operation': 'min'}, tag + ' surf.inp')
     # every reaction in exactly one of the two files (complementary predicates on the same attribute)
     both = [r for r in w.reactions]
     n_gas = len([r for r in both if side_of(r, 'gas_phase') is True])
@@ -513,7 +610,10 @@ def policies(run, two_sites):
 # grammar; with the coefficients of the model mechanism the file has 2O2 and 2C2H6_s (coefficient equal to a digit of the
 # name) next to 2CH3(S) (different from it)
 SPELLED = {'g1': 'H2', 'g2': 'O2', 'g3': 'H2O', 'a1': 'CH3(S)', 'a2': 'C2H6_s', 'vac': 'PT*', 'ts': 'TS1(S)',
-           'bulk0': 'PT(B)', 'site0': 'PT_111', 'el0': 'H', 'el1': 'O', 'el2': 'Pt'}
+           'bulk0': 'PT(B)', 'site0': 'PT_111', 'el0': 'H', 'el1': 'O', 'el2': 'Pt',
+           # names that are part of other names (H in H2, H(S) in OH(S), OH(S) in H2OH(S)) and a name that begins with
+           # a lower-case letter (the n-, i-, c- prefixes of combustion mechanisms)
+           'h': 'H', 'hs': 'H(S)', 'ohs': 'OH(S)', 'h2os': 'H2O(S)', 'npr': 'nC3H7'}
 
 
 def spelled_names(run, repo):
@@ -524,6 +624,17 @@ def spelled_names(run, repo):
     I = w.I
     D = I.D
     add_reactions(w)
+    # steps whose last product is spelled inside an earlier term of the same line: H2 = 2H, H2O(S) + PT* = OH(S) + H(S),
+    # nC3H7 + H = H2 + ... ; the equation text, the names and the coefficients must come back whole
+    w.add_species('h', 'G', None, 1, (0,))
+    w.add_species('npr', 'G', None, 5, (0,))
+    w.add_species('hs', 'S', w.sites[0], 4, (0, 2))
+    w.add_species('ohs', 'S', w.site_copies[0], 5, (0, 1, 2))
+    w.add_species('h2os', 'S', w.sites[0], 6, (0, 1, 2))
+    w.reaction('rh', [('g1', 1)], [('h', 2)])
+    w.reaction('rnpr', [('npr', 1), ('h', 1)], [('g1', 2), ('h', 3)], ts=[('ts', 1)])
+    w.reaction('rohs', [('h2os', 1), ('vac', 1)], [('ohs', 1), ('hs', 1)], ts=[('ts', 1)])
+    w.reaction('rhs', [('g1', 1), ('vac', 2)], [('hs', 2)], adsorption=True)
     T, P = D.sym('T'), D.sym('P')
     species_list = ListV(list(w.species.values()))
     gas_rx = [r for r in w.reactions if all(sp.attrs['phase'].upper() == 'G' for sp in side_of(r, 'reactants').items)]
@@ -585,13 +696,35 @@ def read_back(run, repo, w, which, kwargs, expected, label, policy, delims=('+',
     I.re_hazards[:] = []
     I.replace_hazards[:] = []
     label = '%s, %s' % (label, policy.label())
-    out = I.call_function(m, wfn, [], dict(kwargs, filename=fname))
+    # a fixed-point or general format prints a number as wide as its value asks for.  Under the witness policy the
+    # value of every printed number is fixed: the numbers the file carries are learnt from the same call with a
+    # format of known width, and printed here as wide as the witness is
+    from ..absre import spell_number
+    from ..absstr import Seg, spec_width, _SPEC
+    ff = kwargs.get('float_format')
+    learnt = []
+    if ff is not None and spec_width(ff) is None:
+        probe = I.call_function(m, wfn, [], dict(kwargs, float_format=' .3E'))
+        if isinstance(probe, Raised):
+            run.fail('DATAFLOW.write', 'chemkin.' + which, label, 'raises %s' % probe.exc, m, wfn)
+            return
+        mm = _SPEC.match(ff)
+        flag = 1 if mm and mm.group(3) in (' ', '+') else 0     # spec_width adds the column of an explicit sign itself
+        for sg in I.seg(probe).segs:
+            if sg.kind == 'field' and sg.cls == 'num' and isinstance(sg.value, Rat) and sg.spec and \
+                    sg.spec.strip('{:}') == ' .3E' and repr(sg.value) not in I.num_widths:
+                txt = spell_number(Seg('field', value=sg.value, width=None, cls='num', spec=ff), policy)
+                I.num_widths[repr(sg.value)] = len(txt) - flag
+                learnt.append(repr(sg.value))
+    try:
+        out = I.call_function(m, wfn, [], dict(kwargs, filename=fname))
+    finally:
+        for k_ in learnt:
+            I.num_widths.pop(k_, None)
     if isinstance(out, Raised):
         run.fail('DATAFLOW.write', 'chemkin.' + which, label, 'writing to a file raises %s' % out.exc, m, wfn)
         return
     # under the witness policy the sign of every printed number is fixed, so its width is known
-    from ..absre import spell_number
-    from ..absstr import Seg
     fixed = []
     for ln in I.files.get(fname, []):
         segs = []
@@ -703,7 +836,7 @@ def file_is_text(run, I, m, writer, kw, label):
         res = []
         for ln in lines:
             ln = ln.strip('rstrip', '\n')
-            if ln.segs and ln.segs[0].kind == 'lit' and ln.segs[0].text.startswith('!'):
+            if is_comment(ln):
                 continue
             res.append(show(ln, 400))
         return res
@@ -722,20 +855,27 @@ def ea_files(run, repo, w):
     I = w.I
     D = I.D
     fn = m.functions['write_EA']
-    conds = ListV([DictV({'T': D.sym('T%d' % i), 'P': D.sym('P%d' % i)}) for i in range(3)])
-    for gas in (False, True):
+    sym = D.sym
+    # the condition lists: three unrelated runs; a pressure series at one temperature followed by another temperature
+    # at the last pressure (runs that share one of their values are still different runs), with the reaction list in
+    # another order
+    cases = (('', ListV([DictV({'T': sym('T%d' % i), 'P': sym('P%d' % i)}) for i in range(3)]), list(w.reactions)),
+             (', runs (T0,P0) (T0,P1) (T1,P1), adsorption steps first',
+              ListV([DictV({'T': sym('T0'), 'P': sym('P0')}), DictV({'T': sym('T0'), 'P': sym('P1')}),
+                     DictV({'T': sym('T1'), 'P': sym('P1')})]), reordered(w.reactions)))
+    for (ctag, conds, rlist), gas in itertools.product(cases, (False, True)):
         for act, ads in (('get_EoRT_act', 'get_HoRT_act'), ('get_GoRT_act', 'get_GoRT_act')):
-            out = I.call_function(m, fn, [], {'reactions': ListV(list(w.reactions)), 'conditions': conds,
+            out = I.call_function(m, fn, [], {'reactions': ListV(list(rlist)), 'conditions': conds,
                                               'write_gas_phase': gas, 'act_method_name': act, 'ads_act_method': ads})
-            label = 'EA file gas=%s act=%s' % (gas, act)
+            label = 'EA file gas=%s act=%s%s' % (gas, act, ctag)
             if isinstance(out, Raised):
                 run.fail('DATAFLOW.write', 'chemkin.write_EA', label, 'raises %s' % out.exc, m, fn)
                 continue
             lines = [ln.strip('rstrip', '\n') for ln in I.seg(out).splitlines()]
-            want = [r for r in w.reactions if bool(side_of(r, 'gas_phase')) == gas]
+            want = [r for r in rlist if bool(side_of(r, 'gas_phase')) == gas]
             count_line = [ln for ln in lines if ln.is_literal() and 'Number of reactions' in ln.literal()]
             declared = int(count_line[0].literal().split()[0]) if count_line else None
-            rx_lines = [ln for ln in lines if any(f.cls != 'num' for f in fields_of(ln))]
+            rx_lines = [ln for ln in lines if any(f.cls != 'num' for f in fields_of(ln)) and not is_comment(ln)]
             run.check(declared == len(rx_lines) == len(want), 'DATAFLOW.count', 'chemkin.write_EA', 'declared count',
                       '[%s] declares %s reactions, writes %d, %d belong here' % (label, declared, len(rx_lines), len(want)),
                       m, fn, sample='[%s] declared == written == %d' % (label, len(want)))
@@ -747,22 +887,27 @@ def ea_files(run, repo, w):
                 run.check(names == want_names, 'DATAFLOW.equation', 'chemkin.write_EA', 'equation',
                           '[%s] the equation of %s lists species %s, expected its reactants and products %s'
                           % (label, r.name, names, want_names), m, fn)
-                meth_ = ads if side_of(r, 'is_adsorption') else act
-                if side_of(r, 'transition_state') is None and meth_ in ('get_EoRT_act', 'get_E_act'):
+                meth = ads if side_of(r, 'is_adsorption') else act
+                if side_of(r, 'transition_state') is None and meth in ('get_EoRT_act', 'get_E_act'):
                     lit = ''.join(s_.text for s_ in ln.segs if s_.kind == 'lit')
                     run.check(not nums and lit.count('0.00E+00') == len(conds), 'DATAFLOW.EA', 'chemkin.write_EA',
                               'value per condition', '[%s] %s has no transition state: one 0 per run expected' %
                               (label, r.name), m, fn)
                     continue
                 ok = len(nums) == len(conds)
+                bad = None
                 if ok:
-                    for f, cd in zip(nums, conds.items):
-                        meth = ads if side_of(r, 'is_adsorption') else act
+                    for k, (f, cd) in enumerate(zip(nums, conds.items)):
                         wv = I.call_method(r, meth, [], dict(cd.d))
-                        ok = ok and isinstance(wv, Rat) and f.value.eq(wv)
+                        if not (isinstance(wv, Rat) and f.value.eq(wv)):
+                            ok = False
+                            bad = bad or 'run %d (%s): written %s, the model gives %s' % (
+                                k + 1, ', '.join('%s=%s' % (k_, show(v_)) for k_, v_ in cd.d.items()),
+                                show(f.value, 100), show(wv, 100))
                 run.check(ok, 'DATAFLOW.EA', 'chemkin.write_EA', 'value per condition',
-                          '[%s] the values written for %s are not the %s of the reaction at each run condition'
-                          % (label, r.name, ads if side_of(r, 'is_adsorption') else act), m, fn)
+                          '[%s] the values written for %s are not the %s of the reaction at each run condition: %s'
+                          % (label, r.name, meth, bad or '%d values for %d runs' % (len(nums), len(conds))), m, fn)
+    conds = cases[0][1]
     file_is_text(run, I, m, 'write_EA', {'reactions': ListV(list(w.reactions)), 'conditions': conds,
                                          'act_method_name': 'get_GoRT_act', 'ads_act_method': 'get_GoRT_act'}, 'EAs.inp')
 
@@ -771,14 +916,17 @@ def run_files(run, repo):
     m = repo.module(CK)
     I = Interp(repo)
     D = I.D
-    n = 3
+    n = 4
     Ts, Ps, Qs, As = (ListV([D.sym('%s%d' % (q, i)) for i in range(n)]) for q in 'TPQA')
+    # runs that share one of their values are still different runs: the last run is at the temperature of the first
+    # and at the pressure of the second
+    Ts.items[3], Ps.items[3] = Ts.items[0], Ps.items[1]
     fn = m.functions['write_T_flow']
     out = I.call_function(m, fn, [], {'T': Ts, 'P': Ps, 'Q': Qs, 'abyv': As})
     if isinstance(out, Raised):
         run.fail('DATAFLOW.write', 'chemkin.write_T_flow', 'T_flow', 'raises %s' % out.exc, m, fn)
     else:
-        lines = [ln for ln in I.seg(out).splitlines() if fields_of(ln)]
+        lines = [ln for ln in I.seg(out).splitlines() if fields_of(ln) and not is_comment(ln)]
         ok = len(lines) == n
         for i, ln in enumerate(lines):
             fs = fields_of(ln)
@@ -792,14 +940,18 @@ def run_files(run, repo):
     fn = m.functions['write_tube_mole']
     names = {}
     sp = []
-    site = Obj('site', attrs={'name': Z + 'Pt'})
     I.sym_strings[Z + 'Pt'] = (2, 'text')
+    I.sym_strings[Z + 'PtB'] = (5, 'text')
+    site = cat_site(I, repo, {'name': Z + 'Pt', 'site_density': D.sym('sden'), 'density': D.sym('rho'),
+                              'bulk_specie': Z + 'PtB'}, 'site')
     for k, (ph, w_) in enumerate((('G', 3), ('S', 5), ('G', 2), ('S', 4))):
         key = Z + 'sp%d' % k
         I.sym_strings[key] = (w_, 'text')
         sp.append(Obj('sp%d' % k, attrs={'name': key, 'phase': ph, 'cat_site': None if ph == 'G' else site}))
+    # three runs; the first species has the same mole fraction in the first and the last
     conds = ListV([DictV({sp[0].attrs['name']: D.sym('x00'), sp[1].attrs['name']: D.sym('x01')}),
-                   DictV({sp[0].attrs['name']: D.sym('x10'), sp[3].attrs['name']: D.sym('x13')})])
+                   DictV({sp[0].attrs['name']: D.sym('x10'), sp[3].attrs['name']: D.sym('x13')}),
+                   DictV({sp[0].attrs['name']: D.sym('x00'), sp[1].attrs['name']: D.sym('x21')})])
     out = I.call_function(m, fn, [], {'mole_frac_conditions': conds, 'nasa_species': ListV(sp)})
     if isinstance(out, Raised):
         run.fail('DATAFLOW.write', 'chemkin.write_tube_mole', 'tube_mole', 'raises %s' % out.exc, m, fn)
@@ -807,7 +959,7 @@ def run_files(run, repo):
     lines = [ln.strip('rstrip', '\n') for ln in I.seg(out).splitlines()]
     cl = [ln for ln in lines if ln.is_literal() and 'Number of nonzero species' in ln.literal()]
     declared = int(cl[0].literal().split()[0]) if cl else None
-    sl = [ln for ln in lines if any(f.cls != 'num' for f in fields_of(ln))]
+    sl = [ln for ln in lines if any(f.cls != 'num' for f in fields_of(ln)) and not is_comment(ln)]
     used = [sp[0], sp[1], sp[3]]
     run.check(declared == len(sl) == len(used), 'DATAFLOW.count', 'chemkin.write_tube_mole', 'declared count',
               'declares %s species, writes %d, %d have a mole fraction in some run' % (declared, len(sl), len(used)), m, fn)
@@ -819,11 +971,17 @@ def run_files(run, repo):
         per_run = []
         for c_ in conds.items:
             per_run.append(c_.d.get(s_.attrs['name']))
-        nums = [f.value for f in fs if f.cls == 'num']
-        want = [v for v in per_run if v is not None]
-        ok = ok and len(nums) == len(want) and all(a.eq(b) for a, b in zip(nums, want))
+        # the columns in the order of the line: a printed mole fraction, or the text of a zero
+        cols = []
+        for sg in ln.segs:
+            if sg.kind == 'field' and sg.cls == 'num':
+                cols.append(sg.value)
+            elif sg.kind == 'lit':
+                cols += [None] * sg.text.count('0.000')
+        ok = ok and len(cols) == len(per_run) and all(
+            (a is None and b is None) or (isinstance(a, Rat) and b is not None and a.eq(b))
+            for a, b in zip(cols, per_run))
         lit = ''.join(s.text for s in ln.segs if s.kind == 'lit')
-        ok = ok and lit.count('0.000') == per_run.count(None)
         run.check(ok, 'DATAFLOW.mole-fraction', 'chemkin.write_tube_mole', 'values per run',
                   'line of %s does not carry its mole fraction in every run (0 when absent): %s' % (s_.name, show(ln, 160)),
                   m, fn)
@@ -833,7 +991,7 @@ def run_files(run, repo):
             okp = texts == [s_.attrs['name']] and lit.count('/GAS/') == 1
             where = 'GAS'
         else:
-            okp = texts == [s_.attrs['name'], s_.attrs['cat_site'].attrs['name']] and 'GAS' not in lit
+            okp = texts == [s_.attrs['name'], site_attr(s_.attrs['cat_site'], 'name')] and 'GAS' not in lit
             where = 'its catalyst site'
         run.check(okp, 'DATAFLOW.phase', 'chemkin.write_tube_mole', 'species/phase/ pair',
                   'line of %s (phase %s) must name the species once, in the phase %s: %s'
@@ -866,8 +1024,7 @@ def number_formats(run, repo, w):
                 run.fail('DATAFLOW.write', 'chemkin.' + writer, label, 'raises %s' % out.exc, m, fn)
                 continue
             lines = [ln.strip('rstrip', '\n') for ln in I.seg(out).splitlines()]
-            lines = [ln for ln in lines if any(f.cls == 'num' for f in fields_of(ln))
-                     and not (ln.segs[0].kind == 'lit' and ln.segs[0].text.startswith('!'))]
+            lines = [ln for ln in lines if any(f.cls == 'num' for f in fields_of(ln)) and not is_comment(ln)]
             specs = sorted({(f.spec or '').strip('{:}') for ln in lines for f in fields_of(ln) if f.cls == 'num'})
             run.check(bool(lines) and specs == [ff], 'DATAFLOW.option', 'chemkin.' + writer, 'float_format',
                       '[%s] the numbers are printed with the formats %s' % (label, specs), m, fn)
@@ -911,10 +1068,21 @@ def check(run, repo):
         'CH3(S), C2H6_s, PT*: digits inside and at the end, coefficient equal to a digit of the name). Every '
         'activation-method name (E, H, G, dimensional and '
         'dimensionless) is run through both writers, EA lines carry reactants and products of their reaction only, '
-        'tube_mole.inp names each species in the phase it belongs to (GAS or its site), and EAs.inp, T_flow.inp, '
-        'tube_mole.inp written to a file have the data lines of the text returned without a file name.')
-    run.assumptions = ['species names are distinct symbolic texts; stoichiometric coefficients are small integers',
-                       'E-format widths assume |exponent| < 100']
+        'tube_mole.inp names each species in the phase it belongs to (GAS or its site), and all five files '
+        'written to a file have the data lines of the text returned without a file name. Catalyst sites are '
+        'pmutt.chemkin.CatSite objects built by the constructor and read through their documented attributes; one '
+        'adsorbate carries an equal copy of its site object (what a JSON round trip gives every species): still one '
+        'SITE and one BULK line per site. gas.inp and surf.inp are also written with the reaction list in another '
+        'order (adsorption steps first, the others back to front): what the loop over the reactions carries from one '
+        'reaction to the next decides no number. EA files, T_flow.inp and tube_mole.inp have runs that share one of '
+        'their values (a pressure series at one temperature, the same mole fraction in two runs). The read-back is '
+        'repeated for fixed-point and general float formats (123450.0000, 123450, 1.2345e-05, explicit sign) and, '
+        'with names written out, for steps whose last product is spelled inside an earlier term (H2 = 2H, '
+        'H2O(S) + PT* = OH(S) + H(S)) and a name that begins with a lower-case letter (nC3H7).')
+    run.assumptions = ['species names are distinct texts (symbolic, or the spelled set H2 O2 H2O H OH(S) H(S) H2O(S) '
+                       'CH3(S) C2H6_s PT* nC3H7); stoichiometric coefficients are small integers',
+                       'E-format widths assume |exponent| < 100; a fixed-point or general format is as wide as the '
+                       'witness value of the read-back policy prints']
     run.undecided = ['read_reactions on files pMuTT did not write; species names outside the grammar letter + '
                      '[letters, digits, ( ) * _] (regular-expression outcomes that depend on the spelling of a name are '
                      'listed as notes)', 'column-width cosmetics and the 80-character warning']
@@ -1007,5 +1175,32 @@ MUTANTS = [
      'edits': [(R_, "        self.gas_phase = self._is_gas_phase()\n", "        self.gas_phase = self._is_gas_phase()\n        self._A = {}\n"),
                (R_, "        if self.transition_state is None or not include_entropy:\n            A = c.kb('J/K') / c.h('J s')\n", "        key = (sden_operation, include_entropy, kwargs.get('P'))\n        try:\n            return self._A[key]\n        except KeyError:\n            pass\n        if self.transition_state is None or not include_entropy:\n            A = c.kb('J/K') / c.h('J s')\n"),
                (R_, "            A = A / eff_site_den**(n_surf - 1)\n        return A\n", "            A = A / eff_site_den**(n_surf - 1)\n        self._A[key] = A\n        return A\n")]},
+    # ---- instances added after the third white-box review (whitebox3/C06.md)
+    {'name': 'unit of the activation energy set in the non-adsorption branch only (adsorption steps listed first get 0)', 'expect': ('DATAFLOW.Ea', 'write_surf'),
+     'edits': [(K_, "                kwargs['activation'] = True\n        A_str = float_field.format(A)", "                kwargs['activation'] = True\n            kwargs['units'] = act_unit\n        A_str = float_field.format(A)"),
+               (K_, "        # Calculate activation energy\n        kwargs['units'] = act_unit\n", "        # Calculate activation energy\n")]},
+    {'name': 'equation text cut at the first occurrence of the last product (index for rindex)', 'expect': ('TABLE.readback', 'read_reactions'),
+     'edits': [(K_, "rxn[0:rxn.rindex(Prods[-1]) + len(Prods[-1])]", "rxn[0:rxn.index(Prods[-1]) + len(Prods[-1])]")]},
+    {'name': 'EA/RT remembered per temperature inside one write_EA call', 'expect': ('DATAFLOW.EA', 'write_EA'),
+     'edits': [(K_, "        for condition in conditions:\n            if reaction.is_adsorption:\n                method = getattr(reaction, ads_act_method)\n            else:\n                method = getattr(reaction, act_method_name)\n            try:\n                quantity = _force_pass_arguments(method, **condition)\n            except (AttributeError, TypeError):\n                # No transition state: the activation quantity is not defined\n                quantity = 0.\n",
+                "        quantities = {}\n        for condition in conditions:\n            if reaction.is_adsorption:\n                method = getattr(reaction, ads_act_method)\n            else:\n                method = getattr(reaction, act_method_name)\n            try:\n                quantity = quantities[condition.get('T')]\n            except KeyError:\n                try:\n                    quantity = _force_pass_arguments(method, **condition)\n                except (AttributeError, TypeError):\n                    quantity = 0.\n                quantities[condition.get('T')] = quantity\n")]},
+    {'name': 'adsorbates grouped by the identity of the CatSite object instead of the site name', 'expect': ('DATAFLOW.once', 'write_surf'),
+     'edits': [(K_, "        try:\n            cat_adsorbates[cat_name].append(specie)\n        except KeyError:\n            cat_adsorbates[cat_name] = [specie]\n            unique_cat_sites.append(specie.cat_site)\n", "        if any(site is specie.cat_site for site in unique_cat_sites):\n            cat_adsorbates[cat_name].append(specie)\n        else:\n            cat_adsorbates[cat_name] = [specie]\n            unique_cat_sites.append(specie.cat_site)\n")]},
+    {'name': 'reader recognises rate parameters in scientific notation only', 'expect': ('TABLE.readback', 'read_reactions'),
+     'edits': [(K_, "    rate_params = r'(\\s+[-+]?(\\d+\\.?\\d*|\\.\\d+)([eE][-+]?\\d+)?){1,3}\\s*$'", "    rate_params = r'(\\s+[-+]?\\d\\.\\d+[eE][-+]?\\d+){1,3}\\s*$'")]},
+    {'name': 'reader recognises an upper-case exponent only', 'expect': ('TABLE.readback', 'read_reactions'),
+     'edits': [(K_, "    rate_params = r'(\\s+[-+]?(\\d+\\.?\\d*|\\.\\d+)([eE][-+]?\\d+)?){1,3}\\s*$'", "    rate_params = r'(\\s+[-+]?(\\d+\\.?\\d*|\\.\\d+)(E[-+]?\\d+)?){1,3}\\s*$'")]},
+    {'name': 'T_flow runs collected in a dictionary keyed by temperature', 'expect': ('DATAFLOW.T_flow', 'write_T_flow'),
+     'edits': [(K_, "    for i, (T_i, P_i, Q_i, abyv_i) in enumerate(zip(T, P, Q, abyv)):\n", "    runs = {}\n    for T_i, P_i, Q_i, abyv_i in zip(T, P, Q, abyv):\n        runs[T_i] = (T_i, P_i, Q_i, abyv_i)\n    for i, (T_i, P_i, Q_i, abyv_i) in enumerate(runs.values()):\n")]},
+    {'name': 'tube_mole: a mole fraction equal to one already on the line is not repeated', 'expect': ('DATAFLOW.mole-fraction', 'write_tube_mole'),
+     'edits': [(K_, "        for condition in mole_frac_conditions:\n            # If the mole fraction was not specified, assumed to be 0\n", "        seen_values = {}\n        for condition in mole_frac_conditions:\n            try:\n                seen_values[condition[specie.name]]\n                continue\n            except KeyError:\n                pass\n            if specie.name in condition:\n                seen_values[condition[specie.name]] = True\n")]},
+    {'name': 'SITE line carries the density of the bulk instead of the site density', 'expect': ('DATAFLOW.site', 'write_surf'),
+     'edits': [(K_, "            cat_site_name, cat_site.site_density))", "            cat_site_name, cat_site.density))")]},
+    {'name': 'reader expects a capital letter after the coefficient (nC3H7, iC4H8 ...)', 'expect': ('TABLE.readback', 'read_reactions'),
+     'edits': [(K_, "        for RR in Reactants[-1]:\n            stoic = re.findall(r'^[0-9]*', RR)[0]\n", "        for RR in Reactants[-1]:\n            stoic = re.match(r'([0-9]*)[A-Z]', RR).group(1)\n")]},
+    {'name': 'gas.inp written to a file without its SPECIES section', 'expect': ('DATAFLOW.file', 'write_gas'),
+     'edits': [(K_, "            f_ptr.write('\\n'.join(lines))\n", "            f_ptr.write('\\n'.join(ln for ln in lines if ln not in gas_species))\n")]},
+    {'name': 'surf.inp written to a file without its first SITE line', 'expect': ('DATAFLOW.file', 'write_surf'),
+     'edits': [(K_, "        # Write the file\n        with open(filename, 'w', newline=newline) as f_ptr:\n            f_ptr.write(lines_out)\n", "        # Write the file\n        with open(filename, 'w', newline=newline) as f_ptr:\n            f_ptr.write('\\n'.join(lines[:6] + lines[7:]))\n")]},
 ]
 EQUIV = []
